@@ -10,7 +10,7 @@ from hpotk.model import TermId, Identified  # noqa: E402
 from hpotk.util.sort import HierarchicalEdgeTermIdSorting, HierarchicalIcTermIdSorting  # noqa: E402
 import hpotk.util.sort._hierarchical as H  # noqa: E402
 
-from impl_graph import FACTORIES, exn_name  # noqa: E402
+from impl_graph import FACTORIES, exn_name, warm_up  # noqa: E402
 
 
 class NpProxy:
@@ -79,6 +79,8 @@ def make_sorter(case, g):
 def observe_argsort(case):
     edges = [(TermId.from_curie(s), TermId.from_curie(o)) for s, o in case['edges']]
     g = FACTORIES[case['factory']]().create_graph(edges)
+    if len(case['edges']) % 2 == 0:
+        warm_up(g, list(g), len(case['ids']))
     tids = [TermId.from_curie(x) for x in case['ids']]
     out = {}
     PROXY.log = []
